@@ -47,6 +47,181 @@ _KNOWN = None
 _FETCHED = []
 
 
+def _inline_method_aliases(tree):
+    """Source normal form: ``add = t.add_core`` ... ``add(x, y, p)`` reads
+    ``t.add_core(x, y, p)``.  For a local name bound once, to an attribute of
+    a chain of names (``obj.meth``, ``self.table.get``), and only ever
+    called; the names of the chain are bound at most once in the function
+    (before the alias) and the function stores no attribute of that name
+    anywhere - so the method fetched early is the method a later fetch
+    would give."""
+    import copy as _copy
+
+    def chain_names(e):
+        out = []
+        while isinstance(e, ast.Attribute):
+            out.append(e.attr)
+            e = e.value
+        if isinstance(e, ast.Name):
+            return e.id, out
+        return None, None
+
+    for fn in list(ast.walk(tree)):
+        if not isinstance(fn, (ast.FunctionDef, ast.AsyncFunctionDef)):
+            continue
+        own = []
+        todo = list(fn.body)
+        while todo:
+            n = todo.pop()
+            own.append(n)
+            if isinstance(n, (ast.FunctionDef, ast.AsyncFunctionDef,
+                              ast.ClassDef, ast.Lambda)):
+                continue
+            todo.extend(ast.iter_child_nodes(n))
+        stores = {}
+        attr_stores = set()
+        for n in ast.walk(fn):
+            if isinstance(n, ast.Name) and isinstance(n.ctx, (ast.Store,
+                                                               ast.Del)):
+                stores[n.id] = stores.get(n.id, 0) + 1
+            elif isinstance(n, ast.Attribute) and isinstance(
+                    n.ctx, (ast.Store, ast.Del)):
+                attr_stores.add(n.attr)
+            elif isinstance(n, (ast.Global, ast.Nonlocal)):
+                for nm in n.names:
+                    stores[nm] = stores.get(nm, 0) + 5
+        params = {a.arg for a in ast.walk(fn.args) if isinstance(a, ast.arg)}
+        for st in own:
+            if not (isinstance(st, ast.Assign) and len(st.targets) == 1 and
+                    isinstance(st.targets[0], ast.Name) and
+                    isinstance(st.value, ast.Attribute)):
+                continue
+            nm = st.targets[0].id
+            if stores.get(nm) != 1 or nm in params:
+                continue
+            root, attrs = chain_names(st.value)
+            if root is None or root == nm:
+                continue
+            if stores.get(root, 0) > (0 if root in params else 1):
+                continue
+            if any(a in attr_stores for a in attrs):
+                continue
+            # the alias statement sits directly in the function body or in
+            # a block of it (not under a loop that re-runs it with another
+            # receiver - the receiver is bound once, so that is the same)
+            loads = [x for x in ast.walk(fn) if isinstance(x, ast.Name) and
+                     x.id == nm and isinstance(x.ctx, ast.Load)]
+            if not loads:
+                continue
+            parents = {}
+            for x in ast.walk(fn):
+                for c in ast.iter_child_nodes(x):
+                    parents[id(c)] = x
+            if not all(isinstance(parents.get(id(x)), ast.Call) and
+                       parents[id(x)].func is x for x in loads):
+                continue
+            # every use comes after the alias in the text (a use before it,
+            # in a loop, would read the previous pass's binding: left alone)
+            if any((x.lineno, x.col_offset) < (st.lineno, st.col_offset)
+                   for x in loads):
+                continue
+            for x in loads:
+                new = _copy.deepcopy(st.value)
+                for y in ast.walk(new):
+                    ast.copy_location(y, x)
+                parents[id(x)].func = new
+            # the alias statement goes
+            for holder in ast.walk(fn):
+                for field in ("body", "orelse", "finalbody"):
+                    b = getattr(holder, field, None)
+                    if isinstance(b, list) and st in b:
+                        b.remove(st)
+                        if not b:
+                            b.append(ast.copy_location(ast.Pass(), st))
+    ast.fix_missing_locations(tree)
+
+
+def _inline_slice_objects(tree):
+    """Source normal form: ``area = slice(a, b)`` ... ``buf[area]`` reads
+    ``buf[a:b]`` - for a local name bound once to a ``slice(...)`` call whose
+    arguments are names bound at most once, constants and arithmetic over
+    them, and that is only ever used as a subscript."""
+    import copy as _copy
+
+    def stable(e, stores, params):
+        for x in ast.walk(e):
+            if isinstance(x, ast.Name):
+                if stores.get(x.id, 0) > (0 if x.id in params else 1):
+                    return False
+            elif not isinstance(x, (ast.Constant, ast.BinOp, ast.UnaryOp,
+                                    ast.operator, ast.unaryop,
+                                    ast.expr_context, ast.Attribute)):
+                return False
+        return True
+
+    for fn in list(ast.walk(tree)):
+        if not isinstance(fn, (ast.FunctionDef, ast.AsyncFunctionDef)):
+            continue
+        stores = {}
+        for n in ast.walk(fn):
+            if isinstance(n, ast.Name) and isinstance(n.ctx, (ast.Store,
+                                                               ast.Del)):
+                stores[n.id] = stores.get(n.id, 0) + 1
+        params = {a.arg for a in ast.walk(fn.args) if isinstance(a, ast.arg)}
+        parents = {}
+        for x in ast.walk(fn):
+            for c in ast.iter_child_nodes(x):
+                parents[id(c)] = x
+        for st in list(ast.walk(fn)):
+            if not (isinstance(st, ast.Assign) and len(st.targets) == 1 and
+                    isinstance(st.targets[0], ast.Name) and
+                    isinstance(st.value, ast.Call) and
+                    isinstance(st.value.func, ast.Name) and
+                    st.value.func.id == "slice" and
+                    1 <= len(st.value.args) <= 3 and
+                    not st.value.keywords):
+                continue
+            nm = st.targets[0].id
+            if stores.get(nm) != 1 or nm in params or "slice" in stores:
+                continue
+            if not all(stable(a, stores, params) for a in st.value.args):
+                continue
+            loads = [x for x in ast.walk(fn) if isinstance(x, ast.Name) and
+                     x.id == nm and isinstance(x.ctx, ast.Load)]
+            if not loads or not all(
+                    isinstance(parents.get(id(x)), ast.Subscript) and
+                    parents[id(x)].slice is x for x in loads):
+                continue
+            if any((x.lineno, x.col_offset) < (st.lineno, st.col_offset)
+                   for x in loads):
+                continue
+            a = st.value.args
+            none = lambda e: isinstance(e, ast.Constant) and e.value is None  # noqa
+            if len(a) == 1:
+                lo, hi, step = None, a[0], None
+            else:
+                lo, hi = a[0], a[1]
+                step = a[2] if len(a) == 3 else None
+            for x in loads:
+                sl = ast.Slice(
+                    lower=None if lo is None or none(lo)
+                    else _copy.deepcopy(lo),
+                    upper=None if hi is None or none(hi)
+                    else _copy.deepcopy(hi),
+                    step=None if step is None or none(step)
+                    else _copy.deepcopy(step))
+                ast.copy_location(sl, x)
+                parents[id(x)].slice = sl
+            for holder in ast.walk(fn):
+                for field in ("body", "orelse", "finalbody"):
+                    b = getattr(holder, field, None)
+                    if isinstance(b, list) and st in b:
+                        b.remove(st)
+                        if not b:
+                            b.append(ast.copy_location(ast.Pass(), st))
+    ast.fix_missing_locations(tree)
+
+
 def _split_parallel_assignments(tree):
     """Source normal form: ``a, b = x, y`` (displays of equal length, no
     starred part) reads ``a = x`` followed by ``b = y`` when no later value
@@ -556,6 +731,8 @@ def _normalise(tree):
                     [off] if off is not None else []), keywords=[])
             return ast.copy_location(new, node)
     _split_parallel_assignments(tree)
+    _inline_method_aliases(tree)
+    _inline_slice_objects(tree)
     _hoist_walrus(tree)
     _struct_objects(tree)
     _UnpackSlice().visit(tree)
@@ -1276,7 +1453,8 @@ class Report(object):
                     return k
             return None
         for fd in self.findings[n0:]:
-            (held if owner(fd.instance) else keep).append(fd)
+            (held if owner(fd.instance) and not fd.positive
+             else keep).append(fd)
         if not held:
             return
         self.findings = keep
